@@ -45,12 +45,13 @@ MC_FAMS = {
     ("C02", "quick"): [("MCEngI", 2, 0, {}, False), ("MCEngT", 2, 0, {"WModes": '{"none", "early"}'}, False), ("MCEngB", 2, 0, {}, True), ("MCEngS", 3, 0, {}, True), ("MCEngL1", 3, 0, {}, False)],
     ("C02", "thorough"): [("MCEngI", 2, 0, {}, False), ("MCEngT", 2, 0, {"WModes": ALL_W}, False), ("MCEngS", 4, 0, {}, True), ("MCEngA", 3, 0, {}, False), ("MCEngL1", 3, 0, {}, False),
                           ("MCEngL2", 3, 0, {}, False), ("MCEngB", 3, 0, {}, False)],
-    ("C03", "quick"): [("MCEngI", 2, 0, {}, False), ("MCEngW2", 2, 0, {}, False), ("MCEngT", 2, 0, {"WModes": '{"none", "early", "after"}'}, False)],
+    ("C03", "quick"): [("MCEngI", 2, 0, {}, False), ("MCEngW2", 2, 0, {}, False), ("MCEngT", 2, 0, {"WModes": '{"none", "early", "after"}'}, False),
+                       ("MCEngO", 2, 2, {"WModes": '{"none", "early", "after"}'}, False)],
     ("C03", "thorough"): [("MCEngI", 2, 0, {}, False), ("MCEngW2", 2, 0, {}, False), ("MCEngT", 2, 0, {"WModes": ALL_W}, False)] +
                          [("MCEngW3", 3, 0, {"WModes": '{"%s"}' % w}, False) for w in el.WRAPS[1:]] +
                          [("MCEngW3b", 3, 0, {"WModes": ALL_W}, False)],
-    ("C04", "quick"): [("MCEngI", 2, 0, {}, False), ("MCEngF2", 2, 2, {}, False)],
-    ("C04", "thorough"): [("MCEngI", 2, 0, {}, False), ("MCEngF2", 2, 3, {}, False), ("MCEngF3", 3, 1, {}, False), ("MCEngFW2", 2, 1, {}, False),
+    ("C04", "quick"): [("MCEngI", 2, 0, {}, False), ("MCEngF2", 2, 2, {}, False), ("MCEngO", 2, 3, {"WModes": '{"none", "after"}'}, False)],
+    ("C04", "thorough"): [("MCEngI", 2, 0, {}, False), ("MCEngO", 2, 3, {"WModes": '{"none", "early", "after", "bothDiff"}'}, False), ("MCEngF2", 2, 3, {}, False), ("MCEngF3", 3, 1, {}, False), ("MCEngFW2", 2, 1, {}, False),
                           ("MCEngF3L", 3, 1, {}, False)],
     ("C05", "quick"): [("MCEngI", 2, 0, {}, False), ("MCEngL1", 3, 0, {}, False), ("MCEngL2", 3, 0, {}, False), ("MCEngP", 2, 0, {}, False), ("MCEngM", 2, 0, {}, False)],
     ("C05", "thorough"): [("MCEngI", 2, 0, {}, False), ("MCEngL1", 3, 0, {}, False), ("MCEngL2", 3, 0, {}, False), ("MCEngA", 3, 0, {}, False), ("MCEngP", 3, 0, {}, False), ("MCEngM", 2, 0, {}, False),
